@@ -5,7 +5,7 @@ import re
 import time
 
 VERIF = os.path.dirname(os.path.dirname(os.path.abspath(__file__)))
-EVIDENCE = os.path.join(VERIF, 'evidence')
+EVIDENCE = os.environ.get('SQV_EVIDENCE_DIR') or os.path.join(VERIF, 'evidence')  # mutant runs (tools/) redirect their evidence
 REPLAY = os.path.join(EVIDENCE, 'replay')
 KNOWN = os.path.join(VERIF, 'known_findings.txt')
 
